@@ -171,6 +171,31 @@ func GenTable(r *Rand, o GenOpts) TableSpec {
 			rows = out
 		}
 	}
+	// two keys that differ only in where a NUL byte sits: ("k", "\x00v") and ("k\x00", "v") are distinct
+	// keys that any separator-joined representation of the key confuses
+	if len(rows) >= 2 && len(cols) >= 2 && (len(pkIdx) >= 2 || len(pkIdx) == 0) && r.Chance(0.12) {
+		a, b2 := 0, 1
+		if len(pkIdx) >= 2 {
+			a, b2 = pkIdx[0], pkIdx[1]
+		}
+		i, j := r.Intn(len(rows)), r.Intn(len(rows))
+		if i != j {
+			sep := Pick(r, []string{"\x00", "\x00", "\x1f", "\t"})
+			rows[i][a], rows[i][b2] = "k", sep+"v"
+			rows[j][a], rows[j][b2] = "k"+sep, "v"
+			if len(pkIdx) >= 2 {
+				for _, u := range pkIdx[2:] {
+					rows[j][u] = rows[i][u]
+				}
+			} else {
+				for u := range cols {
+					if u != a && u != b2 {
+						rows[j][u] = rows[i][u]
+					}
+				}
+			}
+		}
+	}
 	return TableSpec{Cols: cols, PK: pk, Rows: rows}
 }
 
